@@ -23,6 +23,10 @@ THEOREMS = [
     "Nix.C15.C15_setters",
     "Nix.C15.C15_no_calibration_identity",
     "Nix.C15.C15_clear_restores",
+    "Nix.C15.C15_whole",
+    "Nix.C15.C15_commutes_whole",
+    "Nix.C15.C15_view_formula",
+    "Nix.C15.C15_invalid_view_empty",
 ]
 ASSUMPTIONS = [
     "values that are doubles in Python are exact rationals in the model: astype(double) is the identity and the "
@@ -255,8 +259,10 @@ class Session:
                 for _ in data.shape:
                     a.append_sampled_dimension(1.0)
         self.ntag = 0
+        self.views = {}
 
     def reopen(self):
+        self.views = {}
         self.file.close()
         self.file = self.nix.File.open(self.path, self.nix.FileMode.ReadWrite)
         self.block = self.file.blocks["blk"]
@@ -280,6 +286,14 @@ class Session:
 
     # -- views ------------------------------------------------------------------------
     def view(self, win, how, twin=False):
+        """DataView handles are kept and reused for a repeated (window, via): a view made before a calibration
+        change must read with the calibration current at the time of the read"""
+        key = core.canon([win, (how or {}).get("via"), twin])
+        if key not in self.views:
+            self.views[key] = self._view(win, how, twin)
+        return self.views[key]
+
+    def _view(self, win, how, twin=False):
         """returns DataView (or list of two for twin) built the way `how` says; falls back to get_slice"""
         nix = self.nix
         via = (how or {}).get("via", "get_slice")
@@ -525,8 +539,12 @@ def gen_index(rng, shape, malformed=False):
 def gen_window(rng, shape, invalid=False):
     win = []
     for d in shape:
-        s = rng.randint(0, d)
-        e = rng.randint(s, d)
+        if d > 0 and rng.random() < 0.85:
+            s = rng.randint(0, d - 1)
+            e = rng.randint(s + 1, d)
+        else:
+            s = rng.randint(0, d)
+            e = rng.randint(s, d)
         win.append([s, e])
     if invalid and shape:
         k = rng.randrange(len(shape))
@@ -569,6 +587,12 @@ def gen_case(rng, profile):
             via = rng.choice(["get_slice", "get_slice", "dataview", "tag", "mtag", "tagfeat", "mtagfeat"])
             if win is None:
                 via = "dataview"
+            earlier = [o for o in ops if o[0] == "view" and o[1] is not None]
+            if earlier and rng.random() < 0.3:      # read again through a view handle made earlier
+                prev = rng.choice(earlier)
+                win, via, q = prev[1], prev[3]["via"], 1.0
+                if any(w[1] > d for w, d in zip(win, shape)):
+                    q = 0.1
             wshape = [w[1] - w[0] for w in win] if (win is not None and q >= 0.12) else list(shape)
             mal = rng.random() < 0.1
             uix = gen_index(rng, wshape, mal)
@@ -613,9 +637,9 @@ def op_tag(op, out):
 def correspondence(ctx):
     rng = ctx.rng
     cases = list(core.load_corpus(PROP))
-    n_exact = ctx.budget(450, 6000)
-    n_float = ctx.budget(150, 2000)
-    n_big = ctx.budget(60, 800)
+    n_exact = ctx.budget(850, 8000)
+    n_float = ctx.budget(300, 3000)
+    n_big = ctx.budget(120, 1200)
     for _ in range(n_exact):
         cases.append(gen_case(rng, "exact"))
     for _ in range(n_float):
@@ -656,8 +680,8 @@ def correspondence(ctx):
                 bad_at = k
         if bad_at is not None:
             small = shrink_case(c, bad_at)
-            disagreements.append(Disagreement(small, {"op": bad_at, "out": strip(m["ok"][bad_at])},
-                                              {"op": bad_at, "out": i[bad_at]}))
+            disagreements.append(Disagreement(small, {"op": len(small["ops"]) - 1, "out": strip(m["ok"][bad_at])},
+                                              {"op": len(small["ops"]) - 1, "out": i[bad_at]}))
     disagreements.sort(key=lambda d: len(core.canon(d.case)))
     pick = sorted(rng.sample(range(len(cases)), min(4, len(cases))))
     samples = [{"case": resolved[k], "model": [strip(x) for x in model[k].get("ok", [])][:6]} for k in pick]
@@ -681,8 +705,16 @@ def strip(out):
 
 def shrink_case(case, bad_at):
     """keep the mutating operations before the failing one and the failing one"""
-    ops = [op for op in case["ops"][:bad_at] if op[0] in ("set_coeffs", "set_origin", "write", "reopen")]
-    ops.append(case["ops"][bad_at])
+    last = case["ops"][bad_at]
+
+    def keep(op):
+        if op[0] in ("set_coeffs", "set_origin", "write", "reopen"):
+            return True
+        # a view handle made earlier and reused by the failing read
+        return (op[0] == "view" and last[0] == "view" and op[1] == last[1] and len(op) > 3 and len(last) > 3
+                and op[3].get("via") == last[3].get("via"))
+    ops = [op for op in case["ops"][:bad_at] if keep(op)]
+    ops.append(last)
     c = dict(case)
     c["ops"] = ops
     return c
@@ -987,7 +1019,7 @@ def oracle(ctx, broken, hints):
             cases.append(h)
     cases += FIXED_CASES
     cases += list(core.load_corpus(PROP))
-    n = 2500 if (broken and not ctx.quick()) else 900 if broken else ctx.budget(220, 2500)
+    n = 4000 if (broken and not ctx.quick()) else 1200 if broken else ctx.budget(450, 4000)
     for k in range(n):
         cases.append(gen_oracle_case(rng, "exact" if k % 4 else "float" if k % 8 else "big"))
     failures = []
